@@ -122,6 +122,11 @@ pub fn c02() -> SchedCampaign {
         families: vec![
             Family { weight: 6, params: conflict_family("hot-slots") },
             Family { weight: 6, params: pointer_family() },
+            // same contract, but half of the transactions come from one sender: a transaction's
+            // latest conflicting predecessor is then often its own sender's previous transaction
+            // rather than the pointer writer, so it restarts while the pointer is still an estimate
+            // (a blocked attempt that publishes a location it never wrote before)
+            Family { weight: 4, params: GenParams { family: "pointer-hot-sender", hot_sender_pct: 50, txs: (6, 14), ..pointer_family() } },
             Family { weight: 3, params: withdraw_family() },
             Family {
                 weight: 3,
